@@ -42,6 +42,7 @@ impl Rep {
 pub fn run(obligation: &str) -> i32 {
     let mut rep = Rep::new();
     std::panic::set_hook(Box::new(|_| {}));   // panics of the code under contract are reported as outcomes, not printed
+    if obligation.starts_with("C06.generate_integer_value") || obligation.starts_with("C06.integer_value_template") || obligation.starts_with("C06.is_builtin_type") { gen_integer_values(&mut rep); return rep.finish("GEN_values"); }
     if ["C04.generate_character_string", "C04.generate_oid", "C04.char_string_template", "C04.oid_template"].iter().any(|p| obligation.starts_with(p)) { gen_strings(&mut rep); return rep.finish("GEN_assignments"); }
     if obligation.starts_with("C03.generate_module_defaults") || obligation.starts_with("C05.generate_module_defaults") { gen_module_defaults(&mut rep); return rep.finish("GEN_module"); }
     if ["C06.generate_integer", "C06.integer_template", "C04.generate_typealias", "C04.generate_octet_string", "C04.generate_bit_string", "C04.typealias_template", "C04.octet_string_template", "C04.fixed_octet_string_template", "C04.bit_string_template", "C04.fixed_bit_string_template"].iter().any(|p| obligation.starts_with(p)) { gen_assignments(&mut rep); return rep.finish("GEN_assignments"); }
@@ -482,6 +483,34 @@ fn gen_module_defaults(rep: &mut Rep) {
         rep.check("C05.generate_module_defaults.extensibility_default_is_that_of_the_module_being_generated", t.contains("#[non_exhaustive]") == i2, d);
         rep.check("C03.generate_module_defaults.nothing_else_of_the_backend_changes", t.contains("pubstructT{pubf0:bool,}"), d);
     } } } }
+}
+
+/// generate_integer_value on the real crate: the boundary grid x nine widths x {builtin INTEGER, a referenced type}; expected: `pub const NAME: <width> = <v>;`
+/// (`<Type>(<v>)` for a referenced type) for a fixed width, a LazyLock of `Integer::from(<v>i128)` for the arbitrary-precision type
+fn gen_integer_values(rep: &mut Rep) {
+    use rasn_compiler::verif_hooks::{hook_const_case, hook_generate_integer_value, hook_title_case};
+    let nows = |s: &str| s.chars().filter(|c| !c.is_whitespace()).collect::<String>();
+    let widths = [IntegerType::Uint8, IntegerType::Int8, IntegerType::Uint16, IntegerType::Int16, IntegerType::Uint32, IntegerType::Int32, IntegerType::Uint64, IntegerType::Int64, IntegerType::Unbounded];
+    let builtin = ASN1Type::Integer(Integer { constraints: vec![], distinguished_values: None });
+    let referenced = ASN1Type::ElsewhereDeclaredType(DeclarationElsewhere { parent: None, module: None, identifier: "My-Int".into(), constraints: vec![] });
+    for v in GRID { for w in widths { for (is_ref, ty) in [(false, &builtin), (true, &referenced)] {
+        let got = hook_generate_integer_value("max-val", ty, w, *v);
+        let d = || format!("max-val {} ::= {v} tagged {w:?} -> {}", if is_ref { "My-Int" } else { "INTEGER" }, match &got { Ok(t) => nows(t), Err(e) => format!("ERR {e}") });
+        rep.check("C06.generate_integer_value.a_typed_integer_value_is_always_rendered", got.is_ok(), d);
+        let Ok(t) = &got else { continue; };
+        let t = nows(t);
+        let lit = if w == IntegerType::Unbounded { format!("Integer::from({v}i128)") } else { format!("{v}") };
+        let rt = nows(&hook_title_case("My-Int"));
+        let (tyname, val) = if is_ref { (rt.clone(), format!("{rt}({lit})")) } else { (type_name(w).to_string(), lit) };
+        let name = hook_const_case("max-val");
+        if w == IntegerType::Unbounded {
+            rep.check("C06.generate_integer_value.arbitrary_precision_value_is_a_lazy_static_Integer_holding_exactly_the_value", t.contains(&format!("pubstatic{name}:LazyLock<{tyname}>=LazyLock::new(||{val});")), d);
+        } else {
+            rep.check("C06.generate_integer_value.fixed_width_value_is_a_const_of_the_tagged_width_holding_exactly_the_value", t.contains(&format!("pubconst{name}:{tyname}={val};")), d);
+            rep.check("C06.integer_value_template.a_const_of_the_given_type_and_value", t.contains("pubconst"), d);
+        }
+        rep.check("C06.is_builtin_type.everything_but_references_selections_and_class_fields", t.contains(&rt) == is_ref, d);
+    } } }
 }
 
 /// format_default_methods on the real crate: lists of 0..=4 components, each required / OPTIONAL / DEFAULT, of type BOOLEAN, INTEGER,
